@@ -25,12 +25,12 @@ fn spec() -> Spec {
             Kind { name: "congruence", quick: 200_000, thorough: 5_000_000, serial: false },
             Kind { name: "forward_transformed", quick: 150_000, thorough: 4_000_000, serial: false },
         ],
-        rule: "rigid: random triangles (side 1e-2..1e2 m, angle at p1 with sin >= 1e-6, up to 1e3 m from the origin) x random rigid motions incl. rotations next to 180 degrees: result Ok, proper, maps p_i to q_i, equals the generating motion. collinear: p3 = p1 + t*(p2-p1) evaluated in floating point and exactly representable integer cases, sources and targets: Err(ColinearPoints) with the right flag. congruence: one pairwise distance changed by >= 5 mm + 1e-9 => Err(NotIsometry), by <= 5 mm - 1e-9 => Ok and still a proper rigid map with p1 -> q1. forward_transformed: pose == frame*FK(q), every solution realises it, list ordered by closeness to previous. Frame::translation: pure shift q-p. non-trivial = rotation angle > 1e-3 (rigid) / conclusive rejection; distinct = hash(points) Workload additions: coincident source / target points; forward_transformed with the CONSTRAINT_CENTERED sentinel as previous. Rounds 7-9: a Frame around a Frame; answers compared with what the wrapped robot finds for the reference moved pose; exactly-identity frames; a wrist-singular pose with previous != qs; target points listed in another order.",
+        rule: "rigid: random triangles (side 1e-2..1e2 m, angle at p1 with sin >= 1e-6, up to 1e3 m from the origin) x random rigid motions incl. rotations next to 180 degrees: result Ok, proper, maps p_i to q_i, equals the generating motion. collinear: p3 = p1 + t*(p2-p1) evaluated in floating point and exactly representable integer cases, sources and targets: Err(ColinearPoints) with the right flag. congruence: one pairwise distance changed by >= 5 mm + 1e-9 => Err(NotIsometry), by <= 5 mm - 1e-9 => Ok and still a proper rigid map with p1 -> q1. forward_transformed: pose == frame*FK(q), every solution realises it, list ordered by closeness to previous. Frame::translation: pure shift q-p. non-trivial = rotation angle > 1e-3 (rigid) / conclusive rejection; distinct = hash(points) Workload additions: coincident source / target points; forward_transformed with the CONSTRAINT_CENTERED sentinel as previous. Rounds 7-9: a Frame around a Frame; answers compared with what the wrapped robot finds for the reference moved pose; exactly-identity frames; a wrist-singular pose with previous != qs; target points listed in another order. Round 10: forward_transformed history - the bit-identical joint vector through the same frame on robot after robot, each robot and Frame built, asked and dropped in turn.",
         assumptions: vec![
             "sin(angle at p1) between 1e-12 and 1e-6: either outcome accepted, but an Ok result must be a proper rotation mapping p1 to q1",
             "mapping tolerance 1e-9*scale/sin(angle) + 1e-12*|offset|",
         ],
-        minimums: vec![("oracle_evals", 1_000_000, 25_000_000), ("collinear.expected_rejections", 100_000, 2_500_000), ("congruence.above", 50_000, 1_000_000), ("congruence.below", 50_000, 1_000_000)],
+        minimums: vec![("oracle_evals", 1_000_000, 25_000_000), ("collinear.expected_rejections", 100_000, 2_500_000), ("congruence.above", 50_000, 1_000_000), ("congruence.below", 50_000, 1_000_000), ("forward_transformed.history_steps", 30_000, 800_000)],
     }
 }
 
@@ -459,6 +459,38 @@ fn forward_transformed(idx: u64, rng: &mut Rng, mon: &mut Mon) {
             let missing = direct.iter().filter(|d| !sols.iter().any(|s| (0..6).all(|j| circ_dist(s[j], d[j]) <= 1e-6))).count();
             if missing > 0 {
                 mon.violation("forward-transformed:solutions-lost:singular-pose", "wrist-singular pose through an identity frame: an answer the wrapped robot gives for the caller's previous joints is missing", json!({"robot": robot_json(&robot), "qs": jf(&qs), "previous": jf(&pv), "answers": sols.iter().map(|s| jf(s)).collect::<Vec<_>>(), "wrapped_robot": direct.iter().map(|s| jf(s)).collect::<Vec<_>>()}));
+            } else {
+                mon.held();
+            }
+        }
+    }
+    // History: the same taught joints sent through the same frame on robot after robot (a pallet program run in several
+    // cells): each robot and its Frame exist only for their own query - built, asked, dropped - and the joint vector is
+    // bit-identical throughout. Every answer belongs to the robot that was asked.
+    if rng.bool(0.12) {
+        let qh = joints_uniform(rng, PI);
+        let mut r2 = rp;
+        for step in 0..(2 + rng.usize(3)) {
+            if step > 0 {
+                match rng.usize(4) {
+                    0 => { let j = rng.usize(6); r2.signs[j] = -r2.signs[j]; }
+                    1 => r2.offsets[rng.usize(6)] += *rng.pick(&[PI / 2.0, -PI / 2.0, 0.3]),
+                    2 => r2.c4 += rng.range(0.01, 0.1),
+                    _ => r2 = gen_robot(rng, idx + step as u64, RobotMode::NonDegenerate, 0.0).rp,
+                }
+            }
+            let f2 = Frame { robot: Arc::new(OPWKinematics::new(to_params(&r2))), frame: fr_to_iso(&fr) };
+            let (sols2, pose2) = f2.forward_transformed(&qh, &qh);
+            drop(f2);
+            mon.count("forward_transformed.history_steps");
+            let want2 = fr.mul(&fk(&r2, &qh));
+            let got2 = iso_to_fr(&pose2);
+            let reach2 = r2.reach() + norm(fr.p);
+            let hd = |extra: serde_json::Value| json!({"first_robot": robot_json(&robot), "asked_robot": {"a1": r2.a1, "a2": r2.a2, "b": r2.b, "c1": r2.c1, "c2": r2.c2, "c3": r2.c3, "c4": r2.c4, "offsets": r2.offsets, "signs": r2.signs}, "step": step, "frame": {"r": fr.r, "p": fr.p}, "q": jf(&qh), "extra": extra});
+            if !(pos_dist(&got2, &want2) <= 1e-11 * (1.0 + reach2) && rot_angle(&got2.r, &want2.r) <= 1e-11) {
+                mon.violation("forward-transformed:history:pose", "after other robots were asked with the same joints: returned pose is not frame * FK(q) of the robot asked", hd(json!({"dp": pos_dist(&got2, &want2)})));
+            } else if sols2.iter().any(|s| { let g = fk(&r2, s); !(pos_dist(&g, &want2) <= 1e-6 + 1e-9 + 1e-12 * reach2 && rot_angle(&g.r, &want2.r) <= 1e-6 + 1e-9) }) {
+                mon.violation("forward-transformed:history:solution-does-not-realise-pose", "after other robots were asked with the same joints: a returned solution does not realise the moved pose on the robot asked", hd(json!({"solutions": sols2.iter().map(|s| jf(s)).collect::<Vec<_>>()})));
             } else {
                 mon.held();
             }
